@@ -107,26 +107,27 @@ def rule_writer(ctx, R):
                 if t["k"] == "call":
                     n = callee_name(t["f"], fb)
                     if n == "std::string::String::push":
-                        seq.append("PUSH(%s)" % r2.of_operand(t["args"][1], bi))
+                        v = r2.of_operand(t["args"][1], bi)
+                        seq.append("ZERO" if v == "K48" else "PUSH(%s)" % v)
+                    elif n == "core::convert::From::from" and r2.of_operand(t["args"][0], bi) == "K'0'":
+                        seq.append("ZERO")
                     elif n == "core::iter::traits::iterator::Iterator::rev":
                         seq.append("REV")
                     elif n == "core::iter::traits::iterator::Iterator::collect":
                         seq.append("COLLECT")
                 if i + 1 < len(p) and t["k"] == "switch" and t["xty"] == "bool":
                     l = Events(b, fb, roles=r2).generic_edge(bi, t, p[i + 1])
-                    if l and ("pos" in l or "is_empty" in l):
-                        seq.append(l.replace("String::is_empty(String::new())", "String::is_empty(RES)").replace("PHI(From::from(K'0')|String::new())", "RES"))
+                    if l and "is_empty" in l:
+                        seq.append("EMPTY=" + l[-1])
+                    elif l and "pos" in l:
+                        seq.append(l)
             tail_paths.append(tuple(seq))
     want = set()
-    for e_ in ("BR[String::is_empty(RES)]=0", "BR[String::is_empty(RES)]=1"):
+    for e_ in (("EMPTY=0",), ("EMPTY=1", "ZERO")):
         for s_ in (("BR[P1.pos]=1",), ("BR[P1.pos]=0", "PUSH(K45)")):
-            want.add((e_,) + s_ + ("REV", "COLLECT"))
-    got = {tuple(x for x in s if not x.startswith("BR[String::is_empty")) for s in tail_paths}
-    want2 = {tuple(x for x in s if not x.startswith("BR[String::is_empty")) for s in want}
-    R.check(got == want2, "writer:sign_and_reverse", "after the digits: '-' is appended iff the value is negative, then the text is reversed exactly once", b.span, sorted(got))
-    zero = [s for blk in b.blocks for s in blk["stmts"] if s["k"] == "assign"]
-    has_zero = any(callee_name(t["f"], fb) == "core::convert::From::from" and Roles(b, fb).of_operand(t["args"][0], bi) == "K'0'" for bi, t in b.calls())
-    R.check(has_zero, "writer:zero", "zero is rendered as \"0\" (empty digit string replaced)", b.span)
+            want.add(e_ + s_ + ("REV", "COLLECT"))
+    got = set(tail_paths)
+    R.check(got == want, "writer:sign_and_reverse", "after the digits: an empty digit string is replaced by \"0\" (and only then), '-' is appended iff the value is negative, then the text is reversed exactly once", b.span, sorted(got))
 
 
 def rule_reader(ctx, R):
